@@ -5,6 +5,6 @@ W=$1
 git -C /repo worktree add --detach "$W" HEAD >/dev/null 2>&1 || exit 2
 cp -al /repo/target "$W/target" 2>/dev/null
 for c in emmylua_check emmylua_code_analysis emmylua_diagnostic_macro emmylua_doc_cli emmylua_formatter emmylua_ls emmylua_parser emmylua_parser_desc schema_to_emmylua schema_json_gen luafmt edit_version std_i18n; do
-  rm -rf $W/target/debug/.fingerprint/$c-* $W/target/debug/incremental/$c-* $W/target/debug/deps/$c-* $W/target/debug/deps/lib$c-* $W/target/debug/build/$c-* $W/target/debug/$c $W/target/debug/lib$c.* $W/target/debug/$c.d
+  rm -f $W/target/debug/.cargo-lock; rm -rf $W/target/debug/.fingerprint/$c-* $W/target/debug/incremental/$c-* $W/target/debug/deps/$c-* $W/target/debug/deps/lib$c-* $W/target/debug/build/$c-* $W/target/debug/$c $W/target/debug/lib$c.* $W/target/debug/$c.d
 done
 echo "$W"
